@@ -280,6 +280,12 @@ def allowed_verdicts(h, last, loss, J, D, R, dtype):
             out.add(classify(qq, Fraction(h["high"]) * Fraction(thr_scale), Fraction(h["low"]) * Fraction(thr_scale)))
     if math.isfinite(qf):
         out.add(classify(qf, h["high"], h["low"]))
+        out.add(classify(Fraction(qf), cfr(hr), cfr(lr)))        # float quality against the threshold as rounded to the dtype
+    # the band is an interval of qualities: every verdict between the extreme ones is reachable too
+    order = ["bad", "ok", "very"]
+    if Fraction(h["low"]) <= Fraction(h["high"]):
+        idx = [order.index(v) for v in out]
+        out = set(order[min(idx):max(idx) + 1])
     return out, qx
 
 
@@ -2316,7 +2322,7 @@ def run_large_loss(ctx: Ctx, sizes, rng):
         kspec = rng.choice([None, ["huber", 1.0], ["shift", 0.5], ["cauchy", 1.0]])
         g = torch.Generator().manual_seed(rng.randrange(1 << 30))
         x = (torch.randn(N, d, generator=g, dtype=torch.float64) * rng.choice([0.3, 1.0, 3.0])).to(dt)
-        x[-1] = x[-1] * 0 + 7.0                      # the last item is conspicuous
+        x[-1] = x[-1] * 0 + 100.0                    # the last item is conspicuous
         case = {"kind": "large-loss", "N": N, "d": d, "dtype": dtype, "kernel": kspec}
         shapes = [(N, d)] + ([(N // 2, 2, d)] if N % 2 == 0 else []) + [(1, N, d)]
         kern = make_kernels(kspec)
@@ -2334,7 +2340,8 @@ def run_large_loss(ctx: Ctx, sizes, rng):
                 return float(rm.loss(torch.zeros(1, dtype=dt), None))
         eps = EPS[dtype]
         want, scale, _ = loss_and_scale([x], kspec)
-        tol = 64 * eps * max(abs(want), scale) * max(1.0, math.log2(N))
+        # blocked / pairwise summation: error ≈ eps·log2(N)·Σ|terms| — no larger factor, or a dropped block remainder hides in it
+        tol = 8 * eps * max(abs(want), scale) * max(1.0, math.log2(N))
         vals = [loss_of(x.reshape(shp)) for shp in shapes]
         for shp, v in zip(shapes, vals):
             if abs(v - want) > tol:
@@ -2354,7 +2361,12 @@ def run_large_loss(ctx: Ctx, sizes, rng):
         tail = x[-min(N, 257):]
         head_v = loss_of(x[:-tail.shape[0]]) if tail.shape[0] < N else 0.0
         items.append({"line": "c08.lossk " + kspec_wire(kspec) + " " + outputs_wire([tail]), "case": case, "got": vals[0] - head_v,
-                      "tol": tol + 64 * eps * abs(head_v)})
+                      "tol": 2 * tol})
+        # … and the very last item on its own: loss(x) − loss(x[:-1]) is its kernel value
+        last_v = vals[0] - loss_of(x[:-1])
+        wl_, sl_, _ = loss_and_scale([x[-1:]], kspec)
+        if abs(last_v - wl_) > 2 * tol + 64 * eps * sl_:
+            ctx.fail(case, f"robust-loss: the last of {N} items contributes {last_v!r} to the loss, its kernel value is {wl_!r}")
         ctx.count(f"class.large-loss.N={N}")
         ctx.note_case(("large-loss", N, d, dtype, str(kspec)), True)
     reps = ctx.driver.run([it["line"] for it in items])
@@ -2829,6 +2841,8 @@ def pair_scenarios(rng, n, quick=True):
         for x in (a, b):
             x["ncalls"] = max(2, min(x["ncalls"], 5))
             x.pop("pg_edits", None)
+            if x.pop("defaults", None):          # sharing an explicit strategy object excludes omitting it
+                x["lm_min"], x["lm_max"] = 1e-6, 1e32
         b.pop("strategy", None)
         a["pair"] = {"other": b, "pattern": "".join(rng.choice("AB") for _ in range(12))}
         out.append(a)
